@@ -157,13 +157,12 @@ func (u *Unit) execInstr(fr *Frame, in ssa.Instruction, st *State, reach *Term) 
 			u.runDeferred(d, st, *reach)
 		}
 	case *ssa.Go:
-		u.note("go statement: the spawned call is abstracted (its effects on the heap are arbitrary); sequential view")
-		u.havocHeaps(st, nil, "go")
+		u.execGo(fr, i, st)
 	case *ssa.Send:
 		u.note("channel send is a no-op (sequential view)")
 	case *ssa.Select:
 		u.note("select: non-deterministic choice with arbitrary received values (sequential view)")
-		u.havocHeaps(st, nil, "select")
+		u.havocConcurrent(fr, st, "select")
 		fr.vals[i] = u.freshVal(st, "select", i.Type())
 	case *ssa.Panic:
 		u.execPanic(fr, i, st, *reach)
@@ -214,6 +213,7 @@ func (u *Unit) execAlloc(fr *Frame, a *ssa.Alloc, st *State) {
 		u.store(st, l, Val{T: u.zeroOf(elem), Typ: elem})
 	}
 	fr.vals[a] = Val{T: r, Typ: a.Type(), NonNil: true}
+	fr.boxed = append(fr.boxed, boxedLocal{a, r})
 }
 
 // derefLoc returns the location a pointer value designates, with a nil check for pointer terms.
@@ -262,7 +262,7 @@ func (u *Unit) execUnOp(fr *Frame, i *ssa.UnOp, st *State, reach Term) Val {
 		return Val{T: u.def(app("Int", "-", app("Int", "-", x.T), intLit(1))), Typ: i.Type()}
 	case token.ARROW:
 		u.note("channel receive yields an arbitrary value and arbitrary heap effects (sequential view)")
-		u.havocHeaps(st, nil, "recv")
+		u.havocConcurrent(fr, st, "recv")
 		if i.CommaOk {
 			elem := i.X.Type().Underlying().(*types.Chan).Elem()
 			return Val{Tup: []Val{u.freshVal(st, "recv", elem), u.freshVal(st, "recvok", types.Typ[types.Bool])}, Typ: i.Type()}
